@@ -217,14 +217,15 @@ type c20Case struct {
 	lease  clientv3.Lease
 	ctx    context.Context
 
-	mu      sync.Mutex
-	log     []c20Op // executed changes, in order
-	leased  map[int]clientv3.LeaseID
-	lastOp  map[int]c20Op // last executed change per key index
-	harnErr []string
-	gets    int
-	watches int
-	withRev []int64 // revision option seen on each Watch call (0 = none); informational
+	mu        sync.Mutex
+	log       []c20Op // executed changes, in order
+	leased    map[int]clientv3.LeaseID
+	lastOp    map[int]c20Op // last executed change per key index
+	harnErr   []string
+	gets      int
+	otherGets int // Gets that do not start at the lease prefix (continuation pages)
+	watches   int
+	withRev   []int64 // revision option seen on each Watch call (0 = none); informational
 
 	pauseDone     []chan struct{}
 	sentinelDone  chan struct{}
@@ -306,6 +307,14 @@ type c20KV struct {
 
 func (k *c20KV) Get(ctx context.Context, key string, opts ...clientv3.OpOption) (*clientv3.GetResponse, error) {
 	c := k.c
+	if key != "/kafscale/partition-leases/" && key != "/kafscale/group-leases/" {
+		// not the start of a (re)load: a further page of a load that reads the prefix in pieces, or some other read.
+		// Only the Get that starts a load is a schedule point.
+		c.mu.Lock()
+		c.otherGets++
+		c.mu.Unlock()
+		return k.KV.Get(ctx, key, opts...)
+	}
 	c.mu.Lock()
 	n := c.gets
 	c.gets++
